@@ -258,6 +258,8 @@ def run(chk):
                 "(DecodedSignal.raw_value/phys_value/named_value) and Frame.encode by label.  the tie to the model covers exactly the judged inputs (inside the 28-digit envelope, widths 1..64, str arguments that are labels).  non-trivial = scaling other than (1, 0) with raw != 0, or a table "
                 "look-up, or a rounding decimal operation; distinct by inputs" % len(SCALINGS))
     ok = chk.build_and_audit()
+    # second tie: calculate_raw_range regenerated from the source (integer signals) = model/Scaling.v for all sizes 1..64
+    tr_ok = ok and core.translator_tie(chk, ['gen/Tie_scaling.v'], ['gen/Gen_scaling.v'])
     cm = core.import_impl()
     C = cm.canmatrix
     ctx = decimal.getcontext()
